@@ -187,6 +187,9 @@ def quant_cases(draw):
       # statistics: the tensor's own min/max, or a range that clips / is wider
       'stat': draw(st.sampled_from(['own', 'own', 'own', 'narrow', 'wide'])),
       'perturb_channel': draw(st.integers(0, 3)),
+      # parameters as 1-D vectors (the form read back from a flatbuffer) instead of
+      # the keep-dims arrays tensor_zp_scale_from_min_max returns
+      'flat_params': draw(st.integers(0, 2)) == 0,
   }
 
 
@@ -266,6 +269,15 @@ def run_quant(case):
   ok, qp = core.call(_lib_qparams, x, case)
   if not ok:
     raise Violation('params_raises', repr(qp))
+  if case.get('flat_params'):
+    # (a per-tensor entry of a flatbuffer reads back as one scale with
+    # quantized_dimension 0, cf. UniformQuantParams.from_tfl_tensor_details)
+    qp = qtyping.UniformQuantParams(
+        num_bits=qp.num_bits,
+        quantized_dimension=(0 if qp.quantized_dimension is None and x.ndim >= 1 else qp.quantized_dimension),
+        scale=np.asarray(qp.scale).reshape(-1), zero_point=np.asarray(qp.zero_point).reshape(-1),
+        symmetric=qp.symmetric)
+    labels.append('flat_params')
   ok, q = core.call(uqt.uniform_quantize, x, qp)
   if not ok:
     raise Violation('quantize_raises', '%r on %s' % (q, case))
@@ -315,9 +327,12 @@ def run_quant(case):
     nontrivial = True
     c = case['perturb_channel'] % x.shape[qdim]
     sc2 = np.array(qp.scale, copy=True)
-    idx = [0] * sc2.ndim
-    idx[qdim] = c
-    sc2[tuple(idx)] = sc2[tuple(idx)] * 3
+    if sc2.ndim == 1:
+      sc2[c] = sc2[c] * 3
+    else:
+      idx = [0] * sc2.ndim
+      idx[qdim] = c
+      sc2[tuple(idx)] = sc2[tuple(idx)] * 3
     qp2 = qtyping.UniformQuantParams(num_bits=bits, quantized_dimension=qdim, scale=sc2,
                                      zero_point=qp.zero_point, symmetric=sym)
     q2 = np.asarray(uqt.uniform_quantize(x, qp2))
